@@ -58,6 +58,8 @@ pub struct Log {
 }
 
 pub struct ScriptMatcher {
+    /// what `window_size()` answers BEFORE the first `reset` (a matcher may choose its window in `reset`, from the level)
+    pub pre_reset_window: Option<u64>,
     window: u64,
     spaces: Vec<usize>,
     calls: usize,
@@ -70,7 +72,7 @@ pub struct ScriptMatcher {
 
 impl ScriptMatcher {
     pub fn new(window: u64, spaces: Vec<usize>, plan: Plan, seed: u64, log: Rc<RefCell<Log>>) -> Self {
-        ScriptMatcher { window, spaces, calls: 0, history: vec![], last_start: 0, plan, rng: Rng::new(seed), log }
+        ScriptMatcher { pre_reset_window: None, window, spaces, calls: 0, history: vec![], last_start: 0, plan, rng: Rng::new(seed), log }
     }
 }
 
@@ -259,6 +261,7 @@ impl Matcher for ScriptMatcher {
         }
     }
     fn reset(&mut self, _level: CompressionLevel) {
+        self.pre_reset_window = None;
         self.history.clear();
         self.calls = 0;
         self.last_start = 0;
@@ -267,7 +270,7 @@ impl Matcher for ScriptMatcher {
         log.resets += 1;
     }
     fn window_size(&self) -> u64 {
-        self.window
+        self.pre_reset_window.unwrap_or(self.window)
     }
 }
 
@@ -340,6 +343,7 @@ fn script_string(log: &Log) -> String {
 }
 
 pub struct Case {
+    pub pre_reset_window: Option<u64>,
     pub label: String,
     pub w: u64,
     pub spaces: Vec<usize>,
@@ -357,7 +361,8 @@ pub fn plan(mode: Mode) -> Plan {
 /// a structural failure is reported under (`C16` here; `C02` / `C15` for the user-matcher cases of engine `enc`)
 pub fn run_case(run: &mut Run, c: &Case, seed: u64, spec_limit: usize, spec_budget: &mut usize, rt_props: &[&str], st_props: &[&str]) {
     let log = Rc::new(RefCell::new(Log::default()));
-    let m = ScriptMatcher::new(c.w, c.spaces.clone(), c.plan.clone(), seed, log.clone());
+    let mut m = ScriptMatcher::new(c.w, c.spaces.clone(), c.plan.clone(), seed, log.clone());
+    m.pre_reset_window = c.pre_reset_window;
     let data = c.data.clone();
     let frags = c.frags.clone();
     let lvl = c.lvl.real();
@@ -541,6 +546,7 @@ fn load_corpus() -> Vec<Case> {
             continue;
         }
         v.push(Case {
+            pre_reset_window: None,
             label: format!("corpus {}: {}", path.file_name().unwrap().to_string_lossy(), get("label")),
             w: get("w").parse().unwrap_or(131072),
             spaces,
@@ -578,7 +584,7 @@ pub fn window_edge_case(rng: &mut Rng, w: u64) -> Case {
         p.fixed.insert(i, vec![]);
     }
     p.fixed.insert(nb, parse);
-    Case { label: format!("matches at offset = window_size() = {} (not representable) at the start of a block", w), w, spaces: vec![BLOCK], plan: p, data: d, lvl: Lvl::F, frags: vec![] }
+    Case { pre_reset_window: None, label: format!("matches at offset = window_size() = {} (not representable) at the start of a block", w), w, spaces: vec![BLOCK], plan: p, data: d, lvl: Lvl::F, frags: vec![] }
 }
 
 pub fn run(opts: &Opts) -> Run {
@@ -611,7 +617,7 @@ pub fn run(opts: &Opts) -> Run {
         parse.push((0, 3, 4)); // one match length != 3, first literal length != 0: not F4
         let mut p = plan(Mode::Greedy);
         p.fixed.insert(0, parse);
-        cases.push(Case { label: format!("{} sequences in one block", nseq), w: 131072, spaces: vec![BLOCK], plan: p, data: d, lvl: Lvl::F, frags: vec![] });
+        cases.push(Case { pre_reset_window: None, label: format!("{} sequences in one block", nseq), w: 131072, spaces: vec![BLOCK], plan: p, data: d, lvl: Lvl::F, frags: vec![] });
     }
     // maximal lengths: ml = 131071 after one literal; ll = 131069 then ml = 3
     {
@@ -620,14 +626,14 @@ pub fn run(opts: &Opts) -> Run {
         d.extend_from_slice(&a);
         let mut p = plan(Mode::Greedy);
         p.fixed.insert(1, vec![(1, BLOCK, BLOCK - 1)]);
-        cases.push(Case { label: "match length 131071 at offset 131072".into(), w: 262144, spaces: vec![BLOCK], plan: p, data: d, lvl: Lvl::F, frags: vec![] });
+        cases.push(Case { pre_reset_window: None, label: "match length 131071 at offset 131072".into(), w: 262144, spaces: vec![BLOCK], plan: p, data: d, lvl: Lvl::F, frags: vec![] });
         let mut d = gen::data(&mut rng, "text", BLOCK - 10);
         let t: Vec<u8> = d[10..13].to_vec();
         d.extend_from_slice(&t);
         d.extend_from_slice(b"pqrpqrp");
         let mut p = plan(Mode::Greedy);
         p.fixed.insert(0, vec![(BLOCK - 10, BLOCK - 10 - 10, 3), (3, 3, 4)]);
-        cases.push(Case { label: "literal length 131062 then match length 3".into(), w: 131072, spaces: vec![BLOCK], plan: p, data: d, lvl: Lvl::F, frags: vec![] });
+        cases.push(Case { pre_reset_window: None, label: "literal length 131062 then match length 3".into(), w: 131072, spaces: vec![BLOCK], plan: p, data: d, lvl: Lvl::F, frags: vec![] });
     }
     // offset exactly the window, match to the very first byte of the frame, overlapping match (offset 1)
     {
@@ -638,7 +644,7 @@ pub fn run(opts: &Opts) -> Run {
         d.extend(rng.bytes(5));
         let mut p = plan(Mode::Greedy);
         p.fixed.insert(0, vec![(1024, 1024, 500), (0, 1, 40)]);
-        cases.push(Case { label: "offset = window = position, then offset 1 overlap".into(), w: 1024, spaces: vec![2048], plan: p, data: d, lvl: Lvl::F, frags: vec![1, 2, 3] });
+        cases.push(Case { pre_reset_window: None, label: "offset = window = position, then offset 1 overlap".into(), w: 1024, spaces: vec![2048], plan: p, data: d, lvl: Lvl::F, frags: vec![1, 2, 3] });
     }
     // Huffman literals, treeless after a compressed block, and after a block forced raw (F5 scenario, scripted)
     {
@@ -650,7 +656,7 @@ pub fn run(opts: &Opts) -> Run {
         p.fixed.insert(0, vec![(2999, 1999, 4)]);
         p.fixed.insert(1, vec![(2999, 1999, 4)]);
         p.fixed.insert(2, vec![(2999, 1999, 4)]);
-        cases.push(Case { label: "three identical blocks of 3000 literals over 255 values + one 4-byte match".into(), w: 4096, spaces: vec![3004], plan: p, data: d, lvl: Lvl::F, frags: vec![] });
+        cases.push(Case { pre_reset_window: None, label: "three identical blocks of 3000 literals over 255 values + one 4-byte match".into(), w: 4096, spaces: vec![3004], plan: p, data: d, lvl: Lvl::F, frags: vec![] });
         // sweep of the same scenario: block sizes x flattening depths, so that some land in the narrow band
         // where Huffman gains a few bytes but the block is still stored raw (table remembered, F5)
         let sizes: &[usize] = if opts.thorough { &[1500, 2200, 3004, 5000, 9000, 20000] } else { &[2200, 3004, 9000] };
@@ -663,7 +669,20 @@ pub fn run(opts: &Opts) -> Run {
                 let mut p = plan(Mode::LiteralsOnly);
                 p.fixed.insert(0, vec![(n - 5, n - 5 - 1000, 4)]);
                 p.fixed.insert(1, vec![(n - 5, n - 5 - 1000, 4)]);
-                cases.push(Case { label: format!("treeless-after-raw sweep n={} moves={}", n, m), w: 131072, spaces: vec![n], plan: p, data: d, lvl: Lvl::F, frags: vec![] });
+                cases.push(Case { pre_reset_window: None, label: format!("treeless-after-raw sweep n={} moves={}", n, m), w: 131072, spaces: vec![n], plan: p, data: d, lvl: Lvl::F, frags: vec![] });
+                // the same two blocks behind a block that WAS kept compressed with another table (the decoder holds a table,
+                // but not the one of the block stored raw)
+                {
+                    let text = gen::data(&mut rng, "text", 3000);
+                    let mut d2 = text.clone();
+                    d2.extend_from_slice(&blk);
+                    d2.extend_from_slice(&blk);
+                    let mut p2 = plan(Mode::LiteralsOnly);
+                    p2.fixed.insert(0, vec![]);
+                    p2.fixed.insert(1, vec![(n - 5, n - 5 - 1000, 4)]);
+                    p2.fixed.insert(2, vec![(n - 5, n - 5 - 1000, 4)]);
+                    cases.push(Case { pre_reset_window: None, label: format!("treeless-after-raw behind a compressed block n={} moves={}", n, m), w: 131072, spaces: vec![3000, n], plan: p2, data: d2, lvl: Lvl::F, frags: vec![] });
+                }
             }
         }
         // full-size blocks (the band exists only where the Huffman table description is cheap relative to the block)
@@ -674,12 +693,25 @@ pub fn run(opts: &Opts) -> Run {
             d.extend_from_slice(&blk[..*rng.pick(&[3000usize, 40_000, BLOCK])]);
             let mut p = plan(Mode::LiteralsOnly);
             p.fixed.insert(0, vec![(BLOCK - 5, BLOCK - 5 - 1000, 5)]);
-            cases.push(Case { label: format!("treeless-after-raw full block moves={}", m), w: 131072, spaces: vec![BLOCK], plan: p, data: d, lvl: Lvl::F, frags: vec![] });
+            cases.push(Case { pre_reset_window: None, label: format!("treeless-after-raw full block moves={}", m), w: 131072, spaces: vec![BLOCK], plan: p, data: d, lvl: Lvl::F, frags: vec![] });
+        }
+        // … and behind a small block that WAS kept compressed with another table (own sweep: the band lies elsewhere)
+        let depths2: Vec<usize> = if opts.thorough || opts.focus.is_some() { (100..2200).step_by(50).collect() } else { (100..2200).step_by(150).collect() };
+        for m in depths2 {
+            let blk: Vec<u8> = flattened_block(&mut rng, BLOCK, m);
+            let text = gen::data(&mut rng, "text", 3000);
+            let mut d2 = text.clone();
+            d2.extend_from_slice(&blk);
+            d2.extend_from_slice(&blk[..40_000]);
+            let mut p2 = plan(Mode::LiteralsOnly);
+            p2.fixed.insert(0, vec![]);
+            p2.fixed.insert(1, vec![(BLOCK - 5, BLOCK - 5 - 1000, 5)]);
+            cases.push(Case { pre_reset_window: None, label: format!("treeless-after-raw full block behind a compressed block moves={}", m), w: 131072, spaces: vec![3000, BLOCK], plan: p2, data: d2, lvl: Lvl::F, frags: vec![] });
         }
         let t = gen::data(&mut rng, "text", 12000);
         let mut p = plan(Mode::LiteralsOnly);
         p.chain = 1;
-        cases.push(Case { label: "text, literals only, 3 blocks (Huffman, then treeless)".into(), w: 4096, spaces: vec![4000], plan: p, data: t, lvl: Lvl::F, frags: vec![] });
+        cases.push(Case { pre_reset_window: None, label: "text, literals only, 3 blocks (Huffman, then treeless)".into(), w: 4096, spaces: vec![4000], plan: p, data: t, lvl: Lvl::F, frags: vec![] });
     }
     // a non-constant block whose literals all have ONE value, 1025 .. 70000 of them (RLE literals section: every
     // size format), the matches reaching into the previous block
@@ -697,7 +729,7 @@ pub fn run(opts: &Opts) -> Run {
         let mut p = plan(Mode::LiteralsOnly);
         p.fixed.insert(0, vec![]);
         p.fixed.insert(1, vec![(head, 8192 + head - 100, 60)]);
-        cases.push(Case { label: format!("{} literals of one value around a match into the previous block", nl), w: 131072, spaces: vec![8192, BLOCK], plan: p, data: d, lvl: Lvl::F, frags: vec![] });
+        cases.push(Case { pre_reset_window: None, label: format!("{} literals of one value around a match into the previous block", nl), w: 131072, spaces: vec![8192, BLOCK], plan: p, data: d, lvl: Lvl::F, frags: vec![] });
     }
     // flat histogram over many offset codes (the offset table reaches its maximal accuracy log), with far offsets:
     // `nb` literal-only blocks, then one block of short sequences whose offsets have the codes lo..=hi `per` times each
@@ -737,12 +769,47 @@ pub fn run(opts: &Opts) -> Run {
             p.fixed.insert(i, vec![]);
         }
         p.fixed.insert(nb, parse);
-        cases.push(Case { label: format!("flat offset-code histogram {}..={} x{} after {} blocks", lo, hi, per, nb), w: 1 << 20, spaces: vec![BLOCK], plan: p, data: d, lvl: Lvl::F, frags: vec![] });
+        cases.push(Case { pre_reset_window: None, label: format!("flat offset-code histogram {}..={} x{} after {} blocks", lo, hi, per, nb), w: 1 << 20, spaces: vec![BLOCK], plan: p, data: d, lvl: Lvl::F, frags: vec![] });
     }
     // windows that the window descriptor cannot represent exactly, and a match at (nearly) the full window right at
     // the start of a block: the declared window must not be smaller than what the matcher uses
     for &w in &[131_073u64, 200_000, 150_000, 262_143, 229_377, 300_000] {
         cases.push(window_edge_case(&mut rng, w));
+    }
+    // a matcher that only knows its window after `reset` (before it: a much smaller one): the header must declare the
+    // window the matcher has WHILE it produces the matches
+    for &w in &[200_000u64, 1 << 20] {
+        let mut c = window_edge_case(&mut rng, w);
+        c.pre_reset_window = Some(1024);
+        c.label = format!("{} [window_size() is 1024 until reset]", c.label);
+        cases.push(c);
+    }
+    // thousands of short matches FAR back (offset codes 17 … 19: 17 … 19 extra bits per sequence, written in one piece):
+    // 1 MiB window, five literal-only blocks, then one block of 4500 matches 384 … 640 KiB back
+    {
+        let nb = 5usize;
+        let mut d = rng.bytes(nb * BLOCK);
+        let mut parse = vec![];
+        for k in 0..4500usize {
+            let ll = 1 + (k % 3);
+            for _ in 0..ll {
+                d.push(rng.next() as u8);
+            }
+            let off = 384 * 1024 + ((k * 7919) % (256 * 1024));
+            let ml = 3 + k % 5;
+            for _ in 0..ml {
+                let c = d[d.len() - off];
+                d.push(c);
+            }
+            parse.push((ll, off, ml));
+        }
+        d.extend(rng.bytes(3));
+        let mut p = plan(Mode::LiteralsOnly);
+        for i in 0..nb {
+            p.fixed.insert(i, vec![]);
+        }
+        p.fixed.insert(nb, parse);
+        cases.push(Case { pre_reset_window: None, label: "4500 short matches 384-640 KiB back (1 MiB window)".into(), w: 1 << 20, spaces: vec![BLOCK], plan: p, data: d, lvl: Lvl::F, frags: vec![] });
     }
     // a whole block that is ONE match (match length 131072, the last row of the match length code table)
     {
@@ -754,14 +821,14 @@ pub fn run(opts: &Opts) -> Run {
         p.fixed.insert(0, vec![]);
         p.fixed.insert(1, vec![(0, BLOCK, BLOCK)]);
         p.fixed.insert(2, vec![(0, BLOCK, 77)]);
-        cases.push(Case { label: "a block that is one match of length 131072".into(), w: 262144, spaces: vec![BLOCK], plan: p, data: d, lvl: Lvl::F, frags: vec![] });
+        cases.push(Case { pre_reset_window: None, label: "a block that is one match of length 131072".into(), w: 262144, spaces: vec![BLOCK], plan: p, data: d, lvl: Lvl::F, frags: vec![] });
     }
     // F13 (repaired): window_size() far below the size of the spaces; the header must declare a window
     // that covers every block (these frames were rejected by libzstd before the repair)
     for (w, sp) in [(0u64, BLOCK), (1024, BLOCK), (1024, 2049), (5000, 70_000), (65_536, BLOCK)] {
         let t = gen::data(&mut rng, "text", sp * 2 + 900);
         for lvl in [Lvl::F, Lvl::U] {
-            cases.push(Case { label: format!("F13 window_size {} with {} byte spaces", w, sp), w, spaces: vec![sp], plan: plan(Mode::Greedy), data: t.clone(), lvl, frags: vec![] });
+            cases.push(Case { pre_reset_window: None, label: format!("F13 window_size {} with {} byte spaces", w, sp), w, spaces: vec![sp], plan: plan(Mode::Greedy), data: t.clone(), lvl, frags: vec![] });
         }
     }
 
@@ -791,7 +858,7 @@ pub fn run(opts: &Opts) -> Run {
         p.chain = *rng.pick(&[1usize, 4, 16]);
         let lvl = if rng.chance(1, 6) { Lvl::U } else { Lvl::F };
         let frags = frag_scripts(&mut rng, data.len());
-        cases.push(Case { label: format!("gen#{} w={} spaces={:?} mode={:?} len={} lvl={:?}", i, w, spaces, mode, data.len(), lvl), w, spaces, plan: p, data, lvl, frags });
+        cases.push(Case { pre_reset_window: None, label: format!("gen#{} w={} spaces={:?} mode={:?} len={} lvl={:?}", i, w, spaces, mode, data.len(), lvl), w, spaces, plan: p, data, lvl, frags });
     }
 
     for (i, c) in cases.iter().enumerate() {
